@@ -2,6 +2,7 @@ package main
 
 import (
 	"fmt"
+	"go/constant"
 	"go/token"
 	"go/types"
 	"sort"
@@ -744,6 +745,45 @@ func (fr *Frame) external0(fn *ssa.Function, args []Val, in ssa.Instruction, st 
 	case "errors.New":
 		v := havoc()
 		return v
+	case "strings.HasSuffix", "strings.HasPrefix", "strings.Contains":
+		// strings are interned integers: the predicate is an uninterpreted function of the two codes, fixed by the real
+		// library function on every string literal of the loaded packages when the second argument is a constant
+		fnm := map[string]string{"strings.HasSuffix": "gstr.hassuffix", "strings.HasPrefix": "gstr.hasprefix", "strings.Contains": "gstr.contains"}[name]
+		e.decls2(fmt.Sprintf("(declare-fun %s (Int Int) Bool)", fnm))
+		var arg1 ssa.Value
+		if ci, ok := in.(ssa.CallInstruction); ok && len(ci.Common().Args) == 2 {
+			arg1 = ci.Common().Args[1]
+		}
+		if cst, ok := arg1.(*ssa.Const); ok && cst.Value != nil && cst.Value.Kind() == constant.String {
+			t := constant.StringVal(cst.Value)
+			key := fnm + "|" + t
+			if e.strFacts == nil {
+				e.strFacts = map[string]bool{}
+			}
+			if !e.strFacts[key] {
+				e.strFacts[key] = true
+				var facts []string
+				for code, lit := range e.P.strSnapshot() {
+					var b bool
+					switch name {
+					case "strings.HasSuffix":
+						b = strings.HasSuffix(lit, t)
+					case "strings.HasPrefix":
+						b = strings.HasPrefix(lit, t)
+					default:
+						b = strings.Contains(lit, t)
+					}
+					f := sx(fnm, num(int64(code)), args[1].S)
+					if !b {
+						f = not(f)
+					}
+					facts = append(facts, f)
+				}
+				e.assume("true", and(facts...))
+			}
+			e.note("A5: " + name + " with a constant second argument is decided on every string literal of the loaded packages and left open on any other string")
+		}
+		return scalar(types.Typ[types.Bool], sx(fnm, args[0].S, args[1].S))
 	}
 	if sp := e.P.Specs["ext."+name]; sp != nil {
 		return fr.applyContract(sp, "ext."+name, fn.Signature, args, in, st)
